@@ -1141,6 +1141,16 @@ func (e *Exec) recvWithInv(x *ast.UnaryExpr, v Val, ok string) {
 			}
 			if k, ok := e.litOrd[lit]; !ok || e.topContractClosures()[k] == nil {
 				e.errs = append(e.errs, fmt.Sprintf("chaninv %s: the goroutine literal that sends on it has no 'closure k' contract (its sends are unchecked)", name))
+			} else if e.dry == 0 || true {
+				// the goroutine's heap effects: what its contract's frame allows is forgotten
+				cct := e.topContractClosures()[k]
+				if cct.NoFrame {
+					e.havocPkgFields(e.fi.pkg.PkgPath)
+				} else if len(cct.Modifies) > 0 {
+					menv := e.loopEnv()
+					menv.scopePos = lit.Body.Lbrace + 1
+					e.havocLocs(e.modifiesSets(cct.Modifies, menv))
+				}
 			}
 			for _, obj := range assignedFreeVars(lit, info) {
 				if _, ok := e.st.vars[obj]; ok {
